@@ -359,3 +359,260 @@ Proof.
     + rewrite (lchr_idx b r1 o1 V1). rewrite I1. cbv zeta. rewrite <- I1. apply HS, V1.
   - cbv zeta. rewrite (lchr_idx b r o V). apply HS, V.
 Qed.
+
+(* ---------- character classes ---------- *)
+Lemma kd_range c : uc_kind c = 0%N \/ uc_kind c = 1%N \/ uc_kind c = 2%N.
+Proof. unfold uc_kind. destruct (uc_isspace c); [auto|]. destruct (_ || _); auto. Qed.
+Lemma kd_sp c : uc_kind c = 0%N <-> uc_isspace c = true.
+Proof. unfold uc_kind. destruct (uc_isspace c); [tauto|]. destruct (_ || _); split; discriminate. Qed.
+Lemma kd_nsp c : uc_kind c <> 0%N <-> uc_isspace c = false.
+Proof. rewrite kd_sp. destruct (uc_isspace c); split; congruence. Qed.
+
+(* ---------- specifications of the flat loops ---------- *)
+Section FlatSpec.
+  Variable F : Z -> chr.
+  Variable L : Z.
+  Local Notation kd i := (uc_kind (F i)).
+  Local Notation sp i := (uc_isspace (F i)).
+  Local Notation nlc i := (is_nl (F i)).
+
+  (* reference vocabulary: k is the first / last character of a word (w b e: a maximal run of one
+     non-blank class; W B E: a maximal run of non-blanks) *)
+  Definition word_start (big : bool) (k : Z) : Prop :=
+    kd k <> 0%N /\ (k = 0 \/ if big then kd (k - 1) = 0%N else kd (k - 1) <> kd k).
+  Definition word_end (big : bool) (k : Z) : Prop :=
+    kd k <> 0%N /\ k + 1 < L /\ (if big then kd (k + 1) = 0%N else kd (k + 1) <> kd k).
+
+  (* in the run of the scan: same class as c (small) / non-blank (big) *)
+  Definition inw (big : bool) (c : N) (i : Z) : bool := if big then negb (N.eqb (kd i) 0) else N.eqb (kd i) c.
+  Lemma fkm_inw (big : bool) c i : c = 1%N \/ c = 2%N -> fkm F (if big then 3%N else c) i = inw big c i.
+  Proof.
+    intros Hc. unfold fkm, inw. destruct (kd_range (F i)) as [E|[E|E]]; rewrite E; destruct Hc as [-> | ->]; destruct big; reflexivity.
+  Qed.
+  Lemma kd_12 i : kd i <> 0%N -> kd i = 1%N \/ kd i = 2%N.
+  Proof. destruct (kd_range (F i)) as [E|[E|E]]; auto. congruence. Qed.
+  Lemma inw_self big i : kd i <> 0%N -> inw big (kd i) i = true.
+  Proof. intro H. unfold inw. destruct big; [apply negb_true_iff, N.eqb_neq, H|apply N.eqb_refl]. Qed.
+  Lemma inw_nz big c i : c <> 0%N -> inw big c i = true -> kd i <> 0%N.
+  Proof.
+    unfold inw. destruct big; intros Hc H.
+    - apply negb_true_iff, N.eqb_neq in H. exact H.
+    - apply N.eqb_eq in H. congruence.
+  Qed.
+
+  Lemma f_wordlast_loop_fwd kind : forall fuel p, 0 <= p < L -> Z.of_nat fuel > L - p ->
+    (1 <= p \/ fkm F kind p = true) ->
+    exists s j, f_wordlast_loop F L fuel kind 1 p = Some (s, j) /\ p - 1 <= j < L /\
+      (forall k, p <= k <= j -> fkm F kind k = true) /\
+      (if s : bool then j = L - 1 else fkm F kind (j + 1) = false).
+  Proof.
+    induction fuel as [|f IH]; intros p Hp Hf H1; [lia|]. cbn [f_wordlast_loop].
+    destruct (fkm F kind p) eqn:Ek.
+    - destruct (Z_lt_dec (p + 1) L) as [Hl|Hl].
+      + rewrite fnext_ok by lia. destruct (IH (p + 1)) as (s & j & E & Hj & Hk & Hs); [lia|lia|lia|].
+        exists s, j. split; [exact E|]. split; [lia|]. split; [|exact Hs].
+        intros k Hk'. destruct (Z.eq_dec k p) as [->|]; [exact Ek|apply Hk; lia].
+      + rewrite fnext_fail by lia. exists true, p. split; [reflexivity|]. split; [lia|]. split; [|lia].
+        intros k Hk'. replace k with p by lia. exact Ek.
+    - destruct H1 as [H1|H1]; [|congruence]. rewrite fnext_ok by lia. cbn [snd].
+      exists false, (p + - (1)). split; [reflexivity|]. split; [lia|]. split; [intros; lia|].
+      replace (p + - (1) + 1) with p by lia. exact Ek.
+  Qed.
+
+  Lemma f_wordlast_loop_bwd kind : forall fuel p, 0 <= p < L -> Z.of_nat fuel > p + 1 ->
+    (p + 1 < L \/ fkm F kind p = true) ->
+    exists s j, f_wordlast_loop F L fuel kind (-1) p = Some (s, j) /\ 0 <= j <= p + 1 /\
+      (forall k, j <= k <= p -> fkm F kind k = true) /\
+      (if s : bool then j = 0 else fkm F kind (j - 1) = false).
+  Proof.
+    induction fuel as [|f IH]; intros p Hp Hf H1; [lia|]. cbn [f_wordlast_loop].
+    destruct (fkm F kind p) eqn:Ek.
+    - destruct (Z_le_dec 1 p) as [Hl|Hl].
+      + rewrite fnext_ok by lia. destruct (IH (p + -1)) as (s & j & E & Hj & Hk & Hs); [lia|lia|lia|].
+        exists s, j. split; [exact E|]. split; [lia|]. split; [|exact Hs].
+        intros k Hk'. destruct (Z.eq_dec k p) as [->|]; [exact Ek|apply Hk; lia].
+      + rewrite fnext_fail by lia. exists true, p. split; [reflexivity|]. split; [lia|]. split; [|lia].
+        intros k Hk'. replace k with p by lia. exact Ek.
+    - destruct H1 as [H1|H1]; [|congruence]. rewrite fnext_ok by lia. cbn [snd].
+      exists false, (p + - (-1)). split; [reflexivity|]. split; [lia|]. split; [intros; lia|].
+      replace (p + - (-1) - 1) with p by lia. exact Ek.
+  Qed.
+
+  (* lbuf_wordlast as lbuf_wordbeg / lbuf_wordend call it: to the end of the run containing i *)
+  Lemma f_wordlast_blank (big : bool) fuel dir i : kd i = 0%N ->
+    f_wordlast F L fuel (if big then 3%N else kd i) dir i = Some (false, i).
+  Proof.
+    intro E. unfold f_wordlast, fkm. rewrite E. destruct big; reflexivity.
+  Qed.
+
+  Lemma f_wordlast_fwd (big : bool) fuel i : 0 <= i < L -> Z.of_nat fuel > L -> kd i <> 0%N ->
+    exists s q, f_wordlast F L fuel (if big then 3%N else kd i) 1 i = Some (s, q) /\ i <= q < L /\
+      (forall k, i <= k <= q -> inw big (kd i) k = true) /\
+      (if s : bool then q = L - 1 else inw big (kd i) (q + 1) = false).
+  Proof.
+    intros Hi Hf Hk. pose proof (kd_12 i Hk) as H12. pose proof (fkm_inw big (kd i) i H12) as Hii.
+    rewrite inw_self in Hii by exact Hk.
+    unfold f_wordlast. rewrite Hii. replace (N.eqb (if big then 3%N else kd i) 0) with false
+      by (destruct big; [reflexivity|symmetry; apply N.eqb_neq, Hk]). cbn [orb negb].
+    destruct (f_wordlast_loop_fwd (if big then 3%N else kd i) fuel i) as (s & q & E & Hq & Hr & Hs); [lia|lia|auto|].
+    exists s, q. split; [exact E|].
+    assert (i <= q) by (destruct (Z_le_dec i q); [assumption|]; exfalso;
+      assert (q + 1 = i) by lia; destruct s; [lia|]; replace (q + 1) with i in Hs by lia; congruence).
+    split; [lia|]. split.
+    - intros k Hk'. rewrite <- fkm_inw by exact H12. apply Hr. lia.
+    - destruct s; [exact Hs|]. rewrite <- fkm_inw by exact H12. exact Hs.
+  Qed.
+
+  Lemma f_wordlast_bwd (big : bool) fuel i : 0 <= i < L -> Z.of_nat fuel > L -> kd i <> 0%N ->
+    exists s q, f_wordlast F L fuel (if big then 3%N else kd i) (-1) i = Some (s, q) /\ 0 <= q <= i /\
+      (forall k, q <= k <= i -> inw big (kd i) k = true) /\
+      (if s : bool then q = 0 else inw big (kd i) (q - 1) = false).
+  Proof.
+    intros Hi Hf Hk. pose proof (kd_12 i Hk) as H12. pose proof (fkm_inw big (kd i) i H12) as Hii.
+    rewrite inw_self in Hii by exact Hk.
+    unfold f_wordlast. rewrite Hii. replace (N.eqb (if big then 3%N else kd i) 0) with false
+      by (destruct big; [reflexivity|symmetry; apply N.eqb_neq, Hk]). cbn [orb negb].
+    destruct (f_wordlast_loop_bwd (if big then 3%N else kd i) fuel i) as (s & q & E & Hq & Hr & Hs); [lia|lia|auto|].
+    exists s, q. split; [exact E|].
+    assert (q <= i) by (destruct (Z_le_dec q i); [assumption|]; exfalso;
+      assert (q - 1 = i) by lia; destruct s; [lia|]; replace (q - 1) with i in Hs by lia; congruence).
+    split; [lia|]. split.
+    - intros k Hk'. rewrite <- fkm_inw by exact H12. apply Hr. lia.
+    - destruct s; [exact Hs|]. rewrite <- fkm_inw by exact H12. exact Hs.
+  Qed.
+
+  (* ---------- w W : lbuf_wordbeg forward ---------- *)
+  (* the scan also stops on the terminator p of a line made of blanks only (possibly none) that
+     begins after the start i: p is a line break, an earlier line break p' >= i exists and only
+     blanks lie between them *)
+  Definition w_blank_stop (i p : Z) : Prop :=
+    sp p = true /\ nlc p = true /\ exists p', i <= p' < p /\ nlc p' = true /\ forall k, p' < k < p -> sp k = true.
+  Definition w_stop (big : bool) (i k : Z) : Prop := word_start big k \/ w_blank_stop i k.
+
+  Definition bstop (q k : Z) : Prop := nlc k = true /\ exists p', q <= p' < k /\ nlc p' = true.
+
+  Lemma f_wordbeg_loop_fwd q : 0 <= q -> forall fuel p nl0, q < p < L -> Z.of_nat fuel > L - p ->
+    (forall k, q < k < p -> sp k = true /\ ~ bstop q k) -> (nl0 = 0 \/ nl0 = 1) ->
+    (nl0 = 1 <-> exists p', q <= p' < p /\ nlc p' = true) ->
+    exists s j, f_wordbeg_loop F L fuel 1 nl0 p = Some (s, j) /\ p <= j < L /\
+      (forall k, q < k < j -> sp k = true /\ ~ bstop q k) /\
+      (if s : bool then j = L - 1 /\ sp j = true /\ ~ bstop q j else sp j = false \/ (sp j = true /\ bstop q j)).
+  Proof.
+    intro Hq0. induction fuel as [|f IH]; intros p nl0 Hp Hf Hpre Hn Hiff; [lia|]. cbn [f_wordbeg_loop].
+    destruct (sp p) eqn:Esp.
+    - cbv zeta. set (d := if nlc p then 1 else 0).
+      assert (Hd : (d = 1 /\ nlc p = true) \/ (d = 0 /\ nlc p = false)) by (unfold d; destruct (nlc p); auto).
+      clearbody d. destruct (Z.eqb_spec (nl0 + d) 2) as [E2|E2].
+      + exists false, p. split; [reflexivity|]. split; [lia|]. split; [exact Hpre|]. right. split; [exact Esp|].
+        split; [destruct Hd as [[_ H]|[H _]]; [exact H|lia]|]. apply Hiff. lia.
+      + assert (NB : ~ bstop q p).
+        { intros (Hnl & Hex). apply Hiff in Hex. destruct Hd as [[H _]|[_ H]]; [lia|congruence]. }
+        assert (Hpre' : forall k, q < k < p + 1 -> sp k = true /\ ~ bstop q k).
+        { intros k Hk. destruct (Z.eq_dec k p) as [->|]; [auto|apply Hpre; lia]. }
+        destruct (Z_lt_dec (p + 1) L) as [Hl|Hl].
+        * rewrite fnext_ok by lia. destruct (IH (p + 1) (nl0 + d)) as (s & j & E & Hj & Hk & Hs); try lia; try exact Hpre'.
+          { split.
+            - intro H1. destruct Hd as [[Hd1 Hd2]|[Hd1 Hd2]].
+              + exists p. split; [lia|exact Hd2].
+              + assert (Hx : nl0 = 1) by lia. apply Hiff in Hx. destruct Hx as (p' & Hp' & Hx). exists p'. split; [lia|exact Hx].
+            - intros (p' & Hp' & Hx). destruct (Z.eq_dec p' p) as [->|Hne].
+              + destruct Hd as [[Hd1 Hd2]|[Hd1 Hd2]]; [|congruence]. lia.
+              + assert (Hy : nl0 = 1) by (apply Hiff; exists p'; split; [lia|exact Hx]). lia. }
+          exists s, j. split; [exact E|]. split; [lia|]. split; [exact Hk|exact Hs].
+        * rewrite fnext_fail by lia. exists true, p. split; [reflexivity|]. split; [lia|]. split; [exact Hpre|].
+          split; [lia|]. split; [exact Esp|exact NB].
+    - exists false, p. split; [reflexivity|]. split; [lia|]. split; [exact Hpre|]. left. exact Esp.
+  Qed.
+
+  Lemma blank_to_bstop i q k : q = i \/ sp q = false -> i <= q < k -> w_blank_stop i k -> bstop q k.
+  Proof.
+    intros Hq Hk (_ & Hnl & p' & Hp' & Hnl' & Hsp). split; [exact Hnl|]. exists p'. split; [|exact Hnl'].
+    destruct (Z_le_dec q p'); [lia|]. exfalso. assert (Hs : sp q = true) by (apply Hsp; lia).
+    destruct Hq as [->|Hq]; [lia|congruence].
+  Qed.
+
+  Lemma f_wordbeg_fwd (big : bool) fuel i : 0 <= i < L -> Z.of_nat fuel > L ->
+    exists s j, f_wordbeg F L fuel big 1 i = Some (s, j) /\ i <= j < L /\
+      (forall k, i < k < j -> ~ w_stop big i k) /\
+      (if s : bool then j = L - 1 /\ (i < j -> ~ w_stop big i j) else i < j /\ w_stop big i j).
+  Proof.
+    intros Hi Hf. unfold f_wordbeg.
+    (* after lbuf_wordlast: q *)
+    assert (HQ : exists s0 q, f_wordlast F L fuel (if big then 3%N else kd i) 1 i = Some (s0, q) /\ i <= q < L /\
+               (forall k, i < k <= q -> ~ w_stop big i k) /\ (q = i \/ sp q = false) /\
+               (if s0 : bool then q = L - 1
+                else forall j, q < j -> (forall k, q < k < j -> sp k = true) -> sp j = false -> word_start big j)).
+    { destruct (N.eq_dec (kd i) 0) as [E0|E0].
+      - exists false, i. split; [apply f_wordlast_blank, E0|]. split; [lia|]. split; [intros; lia|]. split; [auto|].
+        intros j Hj Hsp Hnsp. split; [apply kd_nsp, Hnsp|]. right.
+        assert (Ek : kd (j - 1) = 0%N).
+        { destruct (Z.eq_dec (j - 1) i) as [->|]; [exact E0|]. apply kd_sp, Hsp. lia. }
+        destruct big; [exact Ek|]. rewrite Ek. intro H. symmetry in H. apply kd_sp in H. congruence.
+      - destruct (f_wordlast_fwd big fuel i Hi Hf E0) as (s0 & q & E & Hq & Hrun & Hs).
+        exists s0, q. split; [exact E|]. split; [exact Hq|].
+        assert (Hnz : forall k, i <= k <= q -> kd k <> 0%N) by (intros k Hk; eapply inw_nz; [exact E0|apply Hrun, Hk]).
+        split; [|split].
+        + intros k Hk [(Hk0 & Hprev)|(Hsp & _)].
+          * destruct Hprev as [->|Hprev]; [lia|].
+            pose proof (Hrun k ltac:(lia)) as R1. pose proof (Hrun (k - 1) ltac:(lia)) as R2. unfold inw in R1, R2.
+            destruct big.
+            -- apply (Hnz (k - 1)); [lia|exact Hprev].
+            -- apply N.eqb_eq in R1, R2. congruence.
+          * apply kd_sp in Hsp. apply (Hnz k); [lia|exact Hsp].
+        + right. apply kd_nsp, Hnz. lia.
+        + destruct s0; [exact Hs|]. intros j Hj Hsp Hnsp. split; [apply kd_nsp, Hnsp|]. right.
+          destruct (Z.eq_dec (j - 1) q) as [Ej|Ej].
+          * replace (q + 1) with j in Hs by lia. rewrite Ej. pose proof (Hrun q ltac:(lia)) as R1. unfold inw in Hs, R1.
+            destruct big.
+            -- apply negb_false_iff, N.eqb_eq in Hs. apply kd_sp in Hs. congruence.
+            -- apply N.eqb_eq in R1. apply N.eqb_neq in Hs. congruence.
+          * assert (Ek : kd (j - 1) = 0%N) by (apply kd_sp, Hsp; lia).
+            destruct big; [exact Ek|]. rewrite Ek. intro H. symmetry in H. apply kd_sp in H. congruence. }
+    destruct HQ as (s0 & q & E & Hq & Hmin & Hqs & Hs0). rewrite E. cbv zeta.
+    destruct (Z_lt_dec (q + 1) L) as [Hl|Hl].
+    - rewrite fnext_ok by lia.
+      destruct (f_wordbeg_loop_fwd q ltac:(lia) fuel (q + 1) (if nlc q then 1 else 0)) as (s & j & EL & Hj & Hk & Hs); try lia.
+      { destruct (nlc q); auto. }
+      { split.
+        - intro H1. exists q. split; [lia|]. destruct (nlc q); [reflexivity|lia].
+        - intros (p' & Hp' & Hx). replace p' with q in Hx by lia. rewrite Hx. reflexivity. }
+      exists s, j. split; [exact EL|]. split; [lia|].
+      assert (Hmin' : forall k, i < k < j -> ~ w_stop big i k).
+      { intros k Hk'. destruct (Z_le_dec k q) as [Hle|Hgt]; [apply Hmin; lia|].
+        destruct (Hk k ltac:(lia)) as (Hspk & Hnb). intros [(Hk0 & _)|Hb].
+        - apply kd_nsp in Hk0. congruence.
+        - apply Hnb. eapply blank_to_bstop; [exact Hqs| |exact Hb]. lia. }
+      split; [exact Hmin'|].
+      destruct s.
+      + destruct Hs as (Ej & Hspj & Hnb). split; [exact Ej|]. intros _ [(Hk0 & _)|Hb].
+        * apply kd_nsp in Hk0. congruence.
+        * apply Hnb. eapply blank_to_bstop; [exact Hqs| |exact Hb]. lia.
+      + split; [lia|]. destruct Hs as [Hnsp|(Hspj & Hnl & p' & Hp' & Hnl')].
+        * left. destruct s0; [lia|]. apply Hs0; [lia| |exact Hnsp]. intros k Hk'. apply Hk. lia.
+        * right. split; [exact Hspj|]. split; [exact Hnl|]. exists p'. split; [lia|]. split; [exact Hnl'|].
+          intros k Hk'. apply Hk. lia.
+    - rewrite fnext_fail by lia. exists true, q. split; [reflexivity|]. split; [lia|]. split; [intros; apply Hmin; lia|].
+      split; [lia|]. intro. apply Hmin. lia.
+  Qed.
+End FlatSpec.
+
+(* ---------- fuel ---------- *)
+Lemma total_chars_flat b : total_chars b = length (flat b).
+Proof. unfold total_chars, flat. induction b as [|l b IH]; cbn [fold_right concat]; [reflexivity|]. rewrite app_length, IH. reflexivity. Qed.
+Lemma mfuel_enough b : Z.of_nat (mfuel b) > nchars b.
+Proof. unfold mfuel, nchars. rewrite total_chars_flat. lia. Qed.
+
+(* ---------- w W over the buffer ---------- *)
+Lemma wordbeg_fwd_spec b big r o : buf_ne b -> vpos b r o ->
+  exists s r' o', lbuf_wordbeg (mfuel b) b big 1 r o = Some (s, r', o') /\ vpos b r' o' /\
+    let i := idx b r o in let j := idx b r' o' in
+    i <= j /\ (forall k, i < k < j -> ~ w_stop (fchr b) big i k) /\
+    (if s : bool then j = nchars b - 1 /\ (i < j -> ~ w_stop (fchr b) big i j) else i < j /\ w_stop (fchr b) big i j).
+Proof.
+  intros NE V. pose proof (wordbeg_sim b big 1 (mfuel b) r o NE (or_introl eq_refl) V) as HS.
+  destruct (f_wordbeg_fwd (fchr b) (nchars b) big (mfuel b) (idx b r o) (idx_range b r o V) (mfuel_enough b))
+    as (s & j & E & Hj & Hmin & Hs).
+  rewrite E in HS. destruct (lbuf_wordbeg (mfuel b) b big 1 r o) as [[[s' r'] o']|]; cbn in HS; [|contradiction].
+  destruct HS as (-> & V' & I'). exists s, r', o'. split; [reflexivity|]. split; [exact V'|]. cbv zeta. rewrite I'.
+  split; [lia|]. split; [exact Hmin|exact Hs].
+Qed.
